@@ -11,6 +11,9 @@ CHECKS = {
 CHECKS["C01"] = ("exploration", "E1", "bounded exhaustive enumeration of (operation, operand tuple, weakening) triples; abstract run compared with concrete run through a reference concretisation relation",
   "All 21 operation methods x every wholly known operand tuple of the bounded value universe x every weakening of <=2 positions (root or nested) to unknowns with refinements true of the replaced part or to DynamicVal: the weakened call must not fail and its result must admit the concrete result (type constraint, nullness, numeric bounds, prefix, length bounds, known parts); wholly known in => wholly known, non-null out.",
   "trusted: admits() relation (DESIGN app. A), weakening generator; bound: leaf alphabets, collections <=2 members (sets <=3), depth<=2, k<=2 positions", "§3 C01")
+CHECKS["C02"] = ("exploration", "E1", "bounded exhaustive enumeration of operand tuples and (container, key) pairs against exact big.Rat arithmetic and plain Go collections",
+  "All ordered pairs of a number alphabet spanning precisions/constructors/magnitudes x 9 binary and 2 unary numeric operations compared with exact rational arithmetic under an explicit precision rule; boolean truth tables; every list/set/map/tuple/object built from every member sequence up to length 2 (3 thorough) x every key of a key alphabet: Index/HasIndex/GetAttr/HasElement/Length/LengthInt/ElementIterator return exactly the constructor's members, Index succeeds iff HasIndex is True, wrong-typed operands are rejected.",
+  "trusted: big.Rat reference, precision rule stated in evidence assumptions; unspecified zones (0/0, Inf-Inf, x mod 0, modulo with infinities, decimal-text-equal numbers) are not compared", "§3 C02")
 NOT_YET = {}
 props = [json.loads(l) for l in open('/verif/properties.jsonl')]
 checks = []
